@@ -406,6 +406,11 @@ func (se *SpecEnv) object(obj types.Object) SVal {
 		for _, pkg := range se.ex.g.prog.AllPackages() {
 			if pkg.Pkg == o.Pkg() {
 				if g, ok := pkg.Members[o.Name()].(*ssa.Global); ok {
+					if se.ex.te.sortOf(o.Type()) == SIface {
+						if c, isConst := se.ex.initGlobalValue(g); isConst {
+							return SVal{T: c, Ty: o.Type()}
+						}
+					}
 					ref := T(fmt.Sprintf("(obj %d)", se.ex.g.globalID(g)), SRef)
 					a := &Addr{Ref: ref, Elem: o.Type()}
 					if isStruct(o.Type()) {
